@@ -7,6 +7,12 @@
 // delivers the head message of one directed link, connects a pair of peers,
 // makes the non-seeder peer leave, or fires the piece-request timeout. One
 // optional peer answers every piece request with a corrupted payload.
+//
+// Part 2 (swarm.go) covers the layer above: one agent is a real scheduler with
+// a connection limit of 1 or 2, its tracker announces, dials and accepted
+// connections are seams to an environment swarm (tracker, a seeder that stays,
+// peers that join and leave at any point); the explored prefix is followed by a
+// fair continuation that decides "every agent's download completes".
 package main
 
 import (
@@ -466,9 +472,11 @@ func main() {
 		}
 		vrt.WorkerMain(hs)
 		run := evid.New("C19", "exploration")
-		run.Rule = "closed swarm of 1 seeder (complete agent or origin), 2 agents and optionally 1 corrupting peer: real dispatch.Dispatcher + real agentstorage/originstorage per peer over in-memory links; DFS over which enabled transition happens next (deliver the head message of a directed link, connect a pair, agent 2 leaves, piece-request timeout when nothing else is enabled) with at most k deviations from the canonical order; safety checked in every state, convergence in every terminal state. distinct = outcome classes per configuration."
-		run.Assume("no TCP, handshake, tracker or connection limits (C14, C16, C20, C26, C27 cover those layers); configurations are a fixed small set, not random large swarms: this check claims the bounded closed swarm only")
-		run.Assume("virtual time (synctest); a piece-request timeout fires only when no message is in flight")
+		run.Rule = "part 1 (dispatcher swarm): closed swarm of 1 seeder (complete agent or origin), 2 agents and optionally 1 corrupting peer: real dispatch.Dispatcher + real agentstorage/originstorage per peer over in-memory links; DFS over which enabled transition happens next (deliver the head message of a directed link, connect a pair, agent 2 leaves, piece-request timeout when nothing else is enabled) with at most k deviations from the canonical order; safety checked in every state, convergence in every terminal state. " +
+			"part 2 (scheduler swarm: announce / connection-slot layer): one agent is a REAL scheduler (every event handler, connstate with MaxOpenConnectionsPerTorrent 1 or 2, announce queue, announcer, handshaker, conns over net.Pipe, dispatcher, agent storage) whose every event is a pending action; the environment is a tracker (each announce request is a pending action, answered at release time with the peers that joined so far incl. departed ones, or - bounded - with an error), a seeder S that joins at any point and stays, and 1-2 further peers (leechers that take a connection slot of the agent, seeders that serve piece by piece) that join and leave at any point; DFS over the order of event applications, tracker answers, announce ticks (5 s), joins, piece deliveries, departures (and ConnTTI preemption ticks in thorough) with at most k deviations from the canonical order (pending events first, then environment actions); then a FAIR continuation (S joins, everything pending is applied and served, announce tick every 5 s, preemption tick every 30 s, 200 s of virtual time); oracle: the agent's Download returned nil and its cached copy is byte-identical to the blob. distinct = outcome classes per configuration."
+		run.Assume("part 1: no TCP, handshake, tracker or connection limits; configurations are a fixed small set, not random large swarms: this check claims the bounded closed swarm only")
+		run.Assume("part 1: virtual time (synctest); a piece-request timeout fires only when no message is in flight")
+		run.Assume("part 2: one real scheduler per execution; the other peers are protocol-level environment peers (real wire format and handshake, no scheduler of their own), the tracker hands out every peer that joined in arrival order; connection limits 1 and 2, blobs of 1-3 pieces, at most 2 announce ticks / 1 announce error (/ 1 preemption tick) inside the adversarial prefix; piece selection draws fixed to 0 (part 1 explores them); convergence is judged after 200 s of fair virtual time (ConnTTI 30 s, blacklist 30 s, LeecherTTI 10 min)")
 		maxDur := 45
 		if run.Thorough() {
 			maxDur = 110
@@ -513,12 +521,16 @@ func main() {
 				}
 				return fmt.Sprintf("%s [scheduler swarm, connection limit %d]", m, cf.maxConn)
 			})
-			sat := 0
+			sat, leak := 0, 0
 			for k, n := range res.Outcomes {
 				if strings.Contains(k, "saturatedAnswer=1") {
 					sat += n
 				}
+				if strings.Contains(k, "LEAK") {
+					leak += n
+				}
 			}
+			run.Set("swarm:"+cf.name+":executions that left a goroutine blocked after teardown", leak)
 			run.Set("swarm:"+cf.name+":executions with an announce answer applied while saturated", sat)
 		}
 		run.Finish()
